@@ -16,10 +16,11 @@ def run_gen(w, op, cfg=None):
     """Execute a generator op (CLI or manual entry point) and describe its file effects."""
     before = w.fs.snapshot()
     cfg = dict(cfg or {})
+    sp = bool(op.get("same_process"))
     if op["op"] == "gen_manual":
-        out = ops.gen_manual(w, op["board"], cfg, op.get("entropy", 0))
+        out = ops.gen_manual(w, op["board"], cfg, op.get("entropy", 0), sp)
     else:
-        out = ops.gen_cli(w, op["params"], cfg, op.get("entropy", 0))
+        out = ops.gen_cli(w, op["params"], cfg, op.get("entropy", 0), sp)
     after = w.fs.snapshot()
     changed = sorted(k for k in set(before) | set(after) if before.get(k) != after.get(k))
     wopens = [e[2] for e in out["fs_events"] if is_write_open(e)]
